@@ -294,9 +294,10 @@ def run_in(ctx, tmpdir):
         typed = k % 3 == 2
         objs = k % 2 == 1
         desc = random_desc(rng, pool, rng.randrange(1, 12), typed, objs)
-        km = [None, {"data_id": "i", "str": "s", "kind": "k"}, {"data_id": "i", "str": "s", "kind": "k", "type": "t", "name": "n", "o": "x"}][k % 3]
+        # (independent rotations: with `k % 3` for both, typed documents always had the third key map)
+        km = [None, {"data_id": "i", "str": "s", "kind": "k"}, {"data_id": "i", "str": "s", "kind": "k", "type": "t", "name": "n", "o": "x"}, {"data_id": "i"}][(k // 6) % 4]
         vm = None
-        if k % 4 == 3:
+        if (k // 2) % 4 == 3 or (k // 24) % 2 == 1:
             vm = {"type": ["int", "tuple", "Item", "EqObj"]}
             if typed:
                 vm["kind"] = ["a", "b", "child", "c", "d"]
@@ -308,7 +309,7 @@ def run_in(ctx, tmpdir):
                 if isinstance(row[1], dict) and "o" in row[1]:
                     row[1].update({"i": 7000 + j_, "s": "app-field", "k": j_})
         cls = TypedTree if typed else Tree
-        case = dict(side="read", typed=typed, doc=doc, want=json.loads(json.dumps(desc_shape(desc, pool, typed))))
+        case = dict(side="read", typed=typed, doc=doc, want=json.loads(json.dumps(desc_shape(desc, pool, typed))), via_path=k % 5 in (2, 4))
         from props.c05 import SHARED_FILE_META
 
         # every other load hands over ONE caller-owned `file_meta` dict that still holds the header of the previous document
@@ -318,7 +319,16 @@ def run_in(ctx, tmpdir):
 
             # every other reader mapper EMPTIES the entry dict it was given (the loader must have read what it needs before)
             rd = (consuming(m.deser) if k % 4 >= 2 else m.deser) if objs else None
-            t2 = cls.load(io.StringIO(json.dumps(doc)), mapper=rd, file_meta=fm)
+            if k % 5 in (2, 4):
+                # the document is a FILE that the application names by its path (str / pathlib.Path), not an open stream
+                fpath_ = os.path.join(tmpdir, f"r{k}.nutree")
+                with open(fpath_, "w", encoding="utf8") as fp_:
+                    json.dump(doc, fp_)
+                t2 = cls.load(fpath_ if k % 5 == 2 else pathlib.Path(fpath_), mapper=rd, file_meta=fm)
+                os.unlink(fpath_)
+                out.dist["read_target:path"] += 1
+            else:
+                t2 = cls.load(io.StringIO(json.dumps(doc)), mapper=rd, file_meta=fm)
             res = S.tree_shape(t2, pool)
         except Exception as e:  # noqa
             res = "err:" + adapter.err_class(e)
@@ -425,7 +435,17 @@ def replay(ctx, rp):
         doc, typed = case["doc"], case["typed"]
         objs = any(isinstance(r[1], dict) and ("o" in r[1] or "x" in r[1]) for r in doc["nodes"])
         try:
-            t2 = (TypedTree if typed else Tree).load(io.StringIO(json.dumps(doc)), mapper=m.deser if objs else None)
+            if case.get("via_path"):
+                fd_, fpath_ = tempfile.mkstemp(prefix="nutree_verif_c12_", suffix=".nutree")
+                os.close(fd_)
+                try:
+                    with open(fpath_, "w", encoding="utf8") as fp_:
+                        json.dump(doc, fp_)
+                    t2 = (TypedTree if typed else Tree).load(fpath_, mapper=m.deser if objs else None)
+                finally:
+                    os.unlink(fpath_)
+            else:
+                t2 = (TypedTree if typed else Tree).load(io.StringIO(json.dumps(doc)), mapper=m.deser if objs else None)
             res = S.tree_shape(t2, pool)
         except Exception as e:  # noqa
             res = "err:" + adapter.err_class(e)
